@@ -12,36 +12,80 @@ theorem crash_panicked_of_some (s : St) (w : String) (h : s.panicked ≠ none) :
   · rfl
   · next hn => exact absurd hn h
 
-/-- `start()`: "allocator exists" / "verifier exists". -/
-theorem start_no_panic (m : M) (h : m.1.errC = false → m.1.allocator = false ∧ m.1.verifier = false) :
-    (start m).1.panicked = m.1.panicked := by
-  unfold start
-  split
-  · rfl
-  · next he =>
-    have := h (by simpa using he)
-    dsimp only
-    repeat' split
-    all_goals simp_all
+/-- `startCore` (the body of `start()`): "allocator exists" / "verifier exists". -/
+theorem startCore_no_panic (m : M) (h : m.1.allocator = false ∧ m.1.verifier = false) :
+    (startCore m).1.panicked = m.1.panicked := by
+  unfold startCore
+  dsimp only
+  repeat' split
+  all_goals simp_all
 
 theorem handleStopped_no_panic (m : M) (h : m.1.allocator = false ∧ m.1.verifier = false) :
     (handleStopped m).1.panicked = m.1.panicked := by
   unfold handleStopped
   dsimp only
   split
-  · rw [start_no_panic]
+  · rw [startCore_no_panic]
     · simp
-    · intro _; simpa using h
+    · simpa using h
   · simp
+
+theorem startCore_errC (m : M) : (startCore m).1.errC = true := by
+  unfold startCore
+  dsimp only
+  repeat' split
+  all_goals simp
+
+theorem startCore_stopAnn (m : M) : (startCore m).1.stopAnn = false := by
+  unfold startCore
+  dsimp only
+  repeat' split
+  all_goals simp
+
+/-- After `handleStopped` the torrent either runs again (pending verify) or still has no worker. -/
+theorem handleStopped_idle (m : M) (h : m.1.allocator = false ∧ m.1.verifier = false) :
+    (handleStopped m).1.errC = true ∨ ((handleStopped m).1.allocator = false ∧ (handleStopped m).1.verifier = false) := by
+  unfold handleStopped
+  dsimp only
+  split
+  · exact Or.inl (startCore_errC _)
+  · right; simpa using h
+
+/-- `start()`, including the start while stopping (fix C04-F3): no worker may exist while the torrent is
+stopped or stopping (a clause of `Life`). -/
+theorem start_no_panic (m : M)
+    (h : (m.1.errC = false ∨ m.1.stopAnn = true) → m.1.allocator = false ∧ m.1.verifier = false) :
+    (start m).1.panicked = m.1.panicked := by
+  rw [start_eq]
+  unfold startGo startPre
+  by_cases hs : m.1.stopAnn = true
+  · have h0 : (onSt m fun s => { s with stopHang := false }).1.allocator = false ∧
+        (onSt m fun s => { s with stopHang := false }).1.verifier = false := by simpa using h (Or.inr hs)
+    rw [if_pos hs]
+    have hp := handleStopped_no_panic _ h0
+    split
+    · simpa using hp
+    · next he =>
+      rcases handleStopped_idle _ h0 with h1 | h1
+      · exact absurd h1 he
+      · rw [startCore_no_panic _ h1]; simpa using hp
+  · rw [if_neg hs]
+    split
+    · rfl
+    · next he => exact startCore_no_panic m (h (Or.inl (by simpa using he)))
 
 theorem handleVerifyCommand_no_panic (m : M) (h : m.1.errC = false → m.1.allocator = false ∧ m.1.verifier = false) :
     (handleVerifyCommand m).1.panicked = m.1.panicked := by
   unfold handleVerifyCommand
   dsimp only
   split
-  · rw [start_no_panic]
+  · next hst =>
+    have he : m.1.errC = false := by
+      have := (status_stopped_iff (onSt m fun s => { s with doVerify := true }).1).1 hst
+      simpa using this
+    rw [startCore_no_panic]
     · simp
-    · intro he; exact h (by simpa using he)
+    · simpa using h he
   · simp only [onSt_fst]
     rw [stop_panicked]
 
